@@ -381,13 +381,39 @@ def cli(x, p):
     g.lua = lua.Lua.from_lines([src], version=8)
     keep_all = x.bool('keep_all')
     keep_file = x.choice('keep_file', [None, '/w/keep.txt'])
+    via = x.choice('via', ['luamin', 'build'])
     captured = []
-    hx.patch(x, gfile, 'to_file', lambda game, **kw: captured.append(kw))
-    hx.patch(x, builtins, 'open',
-             lambda name, mode='r', *a, **k: hx.MemStream(b'bar\n# c\n\nqux \n'))
-    args = argparse.Namespace(keep_all_names=keep_all,
-                              keep_names_from_file=keep_file)
-    tool.luamin(g, 'out.p8', args=args)
+    games = []
+
+    def fake_to_file(game, **kw):
+        games.append(game)
+        captured.append(kw)
+
+    def fake_open(name, mode='r', *a, **k):
+        if name == '/w/main.lua':
+            return hx.MemStream(src)
+        return hx.MemStream(b'bar\n# c\n\nqux \n')
+    hx.patch(x, gfile, 'to_file', fake_to_file)
+    hx.patch(x, builtins, 'open', fake_open)
+    if via == 'luamin':
+        args = argparse.Namespace(keep_all_names=keep_all,
+                                  keep_names_from_file=keep_file)
+        tool.luamin(g, 'out.p8', args=args)
+    else:
+        import os
+        from pico8.build import build
+        hx.patch(x, os.path, 'exists', lambda fn: fn == '/w/main.lua')
+        args = argparse.Namespace(
+            filename='/w/out.p8', lua='/w/main.lua', lua_minify=True,
+            lua_format=False, keep_all_names=keep_all,
+            keep_names_from_file=keep_file, lua_path=None,
+            optimize_tokens=False)
+        rc = build.do_build(args)
+        x.check('build succeeds', rc == 0)
+        if games:
+            g = games[0]
+            x.check('build hands over the main program',
+                    b''.join(g.lua.to_lines()) == src)
     x.check('luamin writes the cart once', len(captured) == 1)
     if len(captured) != 1:
         return
